@@ -29,12 +29,21 @@ def _fail(msg):
 
 
 # ------------------------------------------------------------------ (a) algebra on z3 terms / ints
-def shift_claims(kind, mins, n, pm=None):
+REPS = {2: [(0, 0)], 3: [(0, 0, 1), (0, 1, 0), (0, 1, 1), (0, 0, 0)], 4: [(0, 1, 0, 1), (0, 0, 0, 1)]}
+
+
+def shift_claims(kind, mins, n, pm=None, rep=None):
     """Runs the real shift code on `mins` (z3 terms or ints).  -> list of (label, claim).
     pm: the parent's *declared* minimum size - any lower bound of its true minimum, so it is a free variable:
     what a rule reads is decided by the children's declared minima alone."""
     k = len(mins)
-    kids = tuple(K(i + 1, mins[i]) for i in range(k))
+    if rep is not None:
+        # repeated children: position i holds the *same class object* as position rep[i] (A x A, A x B x A, ...)
+        base = [K(j + 1, mins[j]) for j in range(k)]
+        kids = tuple(base[rep[i]] for i in range(k))
+        mins = [mins[rep[i]] for i in range(k)]
+    else:
+        kids = tuple(K(i + 1, mins[i]) for i in range(k))
     total = mins[0]
     for m in mins[1:]:
         total = total + m
@@ -88,15 +97,22 @@ def e2_obligations(tier):
             pre = z3.And(pm >= 0, *[m >= 0 for m in mins])
             for label, claim in shift_claims(kind, mins, n, pm):
                 obl.append(("%s/k%d/%s" % (kind, k, label), z3.Implies(pre, claim)))
+            for rep in REPS.get(k, []):
+                for label, claim in shift_claims(kind, mins, n, pm, rep):
+                    obl.append(("%s-rep%s/k%d/%s" % (kind, "".join(map(str, rep)), k, label), z3.Implies(pre, claim)))
     return obl
 
 
 def e2_replay(name, model):
     kind, ks, label = name.split("/", 2)
+    rep = None
+    if "-rep" in kind:
+        kind, r = kind.split("-rep")
+        rep = tuple(int(ch) for ch in r)
     k = int(ks[1:])
     mins = [int(model.get("m%d" % i, 0)) for i in range(k)]
     n = int(model.get("n", 0))
-    for lab, claim in shift_claims(kind, mins, n, int(model.get("pm", 0))):
+    for lab, claim in shift_claims(kind, mins, n, int(model.get("pm", 0)), rep):
         if lab == label and not claim:
             return "claim %s fails natively for mins=%r n=%d" % (name, mins, n)
     return None
